@@ -23,6 +23,8 @@ CHECKS = {
          "netip.ParseAddr contract stub on symbolic input; dns tables imported natively; engine; z3"),
  "C05": ("for every enumerated mask pattern, every grammar regular expression of 1..2/3 atoms over 25 atoms and the regular-expression rules of the bundled lists: for ALL URLs up to 12/20 printable bytes and ALL hostnames up to 8/12 bytes, accepted by the compiled pattern => lower-cased URL contains the shortcut",
          "regexp program encoded as bounded Pike-VM reachability (validated against MatchString each run); rules parsed natively by the real parser; engine; z3"),
+ "C01": ("NetworkEngine.AddRule/MatchAll with the real ShortcutsTable, DomainsTable and SeqScanTable on 1..2 (thorough 3) symbolic rules (literal shortcut of symbolic bytes below/at/above the window length, symbolic $domain values incl. wildcard TLD) and a symbolic URL and source host: rule.Match(q) <=> rule in MatchAll(q), nothing else returned; the hash is an uninterpreted function so every collision pattern is covered",
+         "perfect storage stub; literal-pattern stub; hash abstraction justified by a lemma on the real body each run; counterexamples that need a real collision are not replayable (noted, outside the claim); PSL model; engine; z3"),
  "C16": ("unbounded in the fields the function reads (64-bit option word, 32-bit mask, exception flag fully symbolic under the parser's representation invariant); counterexamples replayed from rule text through the real parser",
          "InvRule on option words (validated natively on the repo's own rule corpus); go/ssa lowering; engine; z3"),
 }
